@@ -41,6 +41,7 @@ type Sched struct {
 	release map[string]chan struct{}
 	Log     []Decision
 	managed map[string]bool
+	OnError func(error) // called once when the run is abandoned (all blocked, livelock), before workers run freely
 }
 
 func NewSched(pg *pgmodel.DB, workers []string) *Sched {
@@ -173,6 +174,10 @@ func (s *Sched) Run(bodies map[string]func(), policy Policy) error {
 			err = fmt.Errorf("scheduler: every live worker is blocked (undetected deadlock?)")
 			break
 		}
+		if i > 6000 {
+			err = fmt.Errorf("scheduler: no termination after %d statements (livelock)", i)
+			break
+		}
 		ch := policy(i, cands, last)
 		ok := false
 		for _, c := range cands {
@@ -192,6 +197,9 @@ func (s *Sched) Run(bodies map[string]func(), policy Policy) error {
 		rc <- struct{}{}
 	}
 	if err != nil {
+		if s.OnError != nil {
+			s.OnError(err) // e.g. cancel the requests' context so that a retry loop ends
+		}
 		// let everybody finish freely
 		s.mu.Lock()
 		for w := range s.managed {
@@ -231,16 +239,30 @@ func abbreviate(s string, n int) string {
 
 // PrefixPolicy follows `prefix` (choices by decision index) and then never preempts: it keeps running the
 // last worker while it can, else the lexicographically first candidate.
+//
+// Fairness: a worker that has run FairnessBound statements in a row while another worker could run is
+// retrying against something only that other worker can change (e.g. a deadlock-retry loop against a lock
+// holder that is never scheduled). No real scheduler starves a runnable session for ever, so the turn passes
+// to the next candidate (it shows up as one more preemption in the recorded schedule).
+const FairnessBound = 150
+
 func PrefixPolicy(prefix []string) Policy {
+	streak := 0
 	return func(i int, cands []string, last string) string {
 		if i < len(prefix) {
 			return prefix[i]
 		}
-		for _, c := range cands {
+		for k, c := range cands {
 			if c == last {
+				streak++
+				if streak > FairnessBound && len(cands) > 1 {
+					streak = 0
+					return cands[(k+1)%len(cands)]
+				}
 				return c
 			}
 		}
+		streak = 0
 		return cands[0]
 	}
 }
@@ -397,7 +419,9 @@ func (b *ConcBase) RunSchedule(prefix []string) (*ConcResult, error) {
 	}
 	sched := NewSched(env.PG, workers)
 	bodies := map[string]func(){}
-	ctx := context.Background()
+	ctx, cancel := context.WithCancel(context.Background())
+	defer cancel()
+	sched.OnError = func(error) { cancel() }
 	for i, w := range workers {
 		i, w := i, w
 		op := b.Case.Par[i]
@@ -420,7 +444,18 @@ func (b *ConcBase) RunSchedule(prefix []string) (*ConcResult, error) {
 	res.Preempt = preemptions(sched.Log)
 	if serr != nil {
 		res.SchedErr = serr.Error()
-		return res, &Inconclusive{Msg: serr.Error()}
+		if !strings.Contains(serr.Error(), "livelock") {
+			return res, &Inconclusive{Msg: serr.Error()}
+		}
+		// A livelock is a behaviour of the code, reproducible under this schedule: the only runnable request
+		// executed thousands of statements without ever answering (e.g. an unbounded retry loop against a lock
+		// it keeps alive itself).  The requests were cancelled; the ones that did not answer are recorded as
+		// "stuck", which no serial order explains (StepC_*_Serializable fails for the family's property).
+		for i := range res.Ress {
+			if !res.Ress[i].OK && (res.Ress[i].Err == "" || res.Ress[i].Err == "internal" || res.Ress[i].Status == 0) {
+				res.Ress[i] = Res{Err: "stuck", Msg: serr.Error()}
+			}
+		}
 	}
 	// commit order: rank of the last commit of each worker among all commits
 	type wc struct {
